@@ -198,7 +198,8 @@ def run(ctx):
               'S3', 'an IKE_SA rekey request received while another exchange is outstanding is answered '
               'TEMPORARY_FAILURE', key=('S3', 'ike-rekey-temporary-failure'), site=ctx.site(ccr, ccr.node))
     # the caught tuple is covered by the notify table, and the table is the RFC's
-    ffi, table = from_exception_table(ctx)
+    ffi = ctx.func('message.PayloadNOTIFY.from_exception')
+    table = {k: common.notify_type_of(ctx, k) for k in NOTIFY_TABLE}
     for k, v in NOTIFY_TABLE.items():
         ctx.check(table.get(k) == v, 'S3', 'from_exception maps %s to %s' % (k, v),
                   key=('S3', 'notify-table', k), site=ctx.site(ffi, ffi.node))
